@@ -57,6 +57,7 @@ extern "C" {
 // runtime entry points used by the explorer (same shared object)
 void pmc_rt_begin(pmc_exec_rec* rec);
 void pmc_rt_end(void);
+void pmc_cov_flush(void);
 // F-site tables: per spec a sorted array of absolute return addresses + a kind mask
 void pmc_rt_set_sites(int spec, const uintptr_t* ras, int n, unsigned kindmask);
 void pmc_rt_set_site_namer(const char* (*fn)(uintptr_t ra));
